@@ -8,6 +8,7 @@ SER-5  backend independence of the byte format
 """
 from . import facts
 from .cfg import CFG, Flow
+from .sym import Sym
 
 READER_TRAIT = "poulpy_hal::layouts::serialization::ReaderFrom"
 WRITER_TRAIT = "poulpy_hal::layouts::serialization::WriterTo"
@@ -947,6 +948,7 @@ def run(res, tier):
     res.rule("SER-2", "a tainted value is stored into n/cols/size/max_size/rows/cols_in/cols_out only when dominated by a comparison chain ending at the receiver's buffer/capacity")
     res.rule("SER-3", "no fallible step (stream read, delegated read, return Err) is reachable after a store to a receiver metadata field or after a delegated sub-object read")
     res.rule("SER-8", "a receiver container whose length (not capacity) bounds the incoming length is not replaced or shortened by the commit")
+    res.rule("SER-10", "a reader that stages a container in a temporary commits the whole temporary")
     res.rule("SER-9", "the length helper the readers trust with raw header fields (checked_len) multiplies only through checked_mul")
     res.rule("SER-7", "a scalar is not narrowed on its way to write_uN/iN, and a narrower unsigned item is not widened into a signed field on the way back")
     res.rule("SER-4", "write_to and read_from of a type perform the same ordered sequence of items")
@@ -978,6 +980,46 @@ def run(res, tier):
         res.floor("SER-6", "writer/reader pairs", n6, 28)
         n9 = ser9(p, res)
         res.floor("SER-9", "trusted length helpers", n9, 1)
+        n10 = ser10(p, res)
+        res.floor("SER-10", "staged container commits", n10, 2)
         ser5(p, res, rd, wr)
         n7 = ser7(p, res, rd, wr)
         res.floor("SER-7", "scalar wire items", n7, 60)
+
+
+def ser10(p, res):
+    """readers that stage a container in a temporary and commit it at the end (`self.seed.clear(); self.seed.extend_from_slice(&seed)`): the commit copies the whole temporary.  A
+    commit from a sub-slice that starts at the receiver's old length keeps the receiver's old entries in front - the stream's seeds are lost while the body is replaced."""
+    n = 0
+    for f in sorted(p.lib_fns(), key=lambda x: x.uid):
+        if f.name != "read_from" or f.kind == "Closure" or not f.blocks or f.is_test() or "ompressed" not in f.uid:
+            continue
+        flow = Flow(f)
+        vflow = Flow(f, transparent=("deref_mut", "deref", "as_mut", "as_mut_slice", "borrow_mut", "as_slice", "as_ref", "borrow"))
+        sym = None
+        for bi, t in f.calls():
+            nm = (f.callee_def(t) or {}).get("n")
+            if nm not in ("extend_from_slice", "copy_from_slice", "clone_from_slice") or len(t["a"]) != 2:
+                continue
+            if not any(r[0] == "param" and r[1] == 1 and r[2] and r[2][-1] == "seed" for r in vflow.op_roots(t["a"][0])) and \
+               not any(r[0] == "call" and (f.callee_def(f.blocks[r[1]]["t"]) or {}).get("n") in ("index_mut", "seed_mut") for r in vflow.op_roots(t["a"][0])):
+                continue
+            n += 1
+            bad = None
+            for r in vflow.op_roots(t["a"][1]):
+                if r[0] == "call" and (f.callee_def(f.blocks[r[1]]["t"]) or {}).get("n") in ("index", "get", "get_unchecked", "split_at"):
+                    t2 = f.blocks[r[1]]["t"]
+                    sym = sym or Sym(f, flow)
+                    for r2 in flow.op_roots(t2["a"][1]) if len(t2["a"]) > 1 else ():
+                        if r2[0] == "agg":
+                            rv = f.blocks[r2[1]]["s"][r2[2]][2]
+                            if rv.get("fields") and "start" in rv["fields"]:
+                                st = sym.operand(rv["o"][rv["fields"].index("start")])
+                                if not (st.is_const() and st.const_value() == 0):
+                                    bad = (t["l"], repr(st))
+            if bad:
+                res.bad("SER-10", f.pretty, "partial-commit-of-staged-container", "%s commits the staged seed table from index %s on: the entries before it keep what the receiver held, so the object read "
+                        "back expands to other masks than the one that was written" % (f.pretty, bad[1]), site=f.where(bad[0]))
+            else:
+                res.ok("SER-10", {"fn": f.pretty})
+    return n
